@@ -1,5 +1,5 @@
 """Per-property policy: which rules decide which clause, floors, scope, wording for the evidence."""
-from . import rules_conv, rules_table, rules_codec, rules_layout, rules_effect, rules_path, rules_reply, rules_cow
+from . import rules_conv, rules_table, rules_codec, rules_layout, rules_effect, rules_path, rules_reply, rules_cow, rules_node
 
 import json, os
 
@@ -183,6 +183,24 @@ PROPS = {
             {"run": rules_path.run_lazyinit, "floor": 1, "use_anchor_files": True},
             {"run": rules_path.run_boundstale, "floor": 5, "use_anchor_files": True},
             {"run": rules_effect.run_objects, "floor": 20, "ctx": {"records": ["mpt_buffer", "buffer", "mpt_array", "array"], "min_functions": 10}, "use_anchor_files": True},
+        ],
+    },
+    "C14": {
+        "explanation": "CHILDPARENT: all stores `A->children = V` in the program (21 sites) are enumerated; each must be one of five read-confirmed idioms (parent links set on every "
+                       "continuation, restore of the same field, function-local holder handed only to mpt_node_clear, next-of-first-child on unlink, link primitive using V->parent). "
+                       "MOVECLEAR: a list taken from another node's children is given up by that node. UAF: trace partitioning on released pointers (free / mpt_node_destroy / unref): "
+                       "no access or hand-off after release. ALLOCPOLARITY: for x = g() with g null-on-failure, returns reached with x known non-null are not all failures while "
+                       "success is reachable with x null. NODEGUARD: free(node) in mpt_node_destroy is dominated by the three link tests; mpt_node_clear resets the links before destroy.",
+        "not_decided": "global shape invariants (acyclicity, single reachability) over operation histories; equality of a clone with its source",
+        "assumptions": [],
+        "technique": "enumerated-idiom check over every children store + CFG reachability/dominators + trace-partitioned typestate (released pointers, null outcomes)",
+        "level_text": "Decides the link-pairing clauses (every child names its parent after each attach; moved lists have one owner; destroy/clear guards) for every site in the build.",
+        "level_note": "idiom list frozen from today's 21 sites, one reason each; anything else is reported",
+        "rules": [
+            {"run": rules_node.run_childparent, "floor": 18},
+            {"run": rules_node.run_destroy_guard, "floor": 4},
+            {"run": rules_path.run_uaf, "floor": 5, "use_anchor_files": True},
+            {"run": rules_path.run_allocpolarity, "floor": 5, "use_anchor_files": True},
         ],
     },
 }
